@@ -247,11 +247,26 @@ class Executor(ExprMixin, ContainerMixin, CallMixin, StmtMixin, ObjectMixin):
                 svs[nm + "__out"] = p.env[nm]
         return Args(svs)
 
+    def trace_ghost(self, p: Path, res, exc=None):
+        """Ghost definition of one trace event at the exit of a function that declares `trace_event` (call_traversal_cb):
+        the event's node and kind -- a function of the outcome only -- are recorded at index tlen(cb), and tlen(cb) grows by one."""
+        te = getattr(self.contract, "trace_event", None)
+        if te is None:
+            return
+        x = Ctx(self, self.h_entry, p.heap, self.args_entry, res=res, family=self.family, exc=exc, labels=p.labels)
+        x.p = p
+        cb, node, kind = te(x)
+        i0 = p.heap.tlen(cb)
+        h1, ax = p.heap.define("tlen", lambda old, c_: If(c_ == cb, old(c_) + 1, old(c_)))
+        p.heap = h1
+        p.assume(ax, L.TN(cb, i0) == node, L.TK(cb, i0) == kind)
+
     def at_exit(self, p: Path, res: SV, how: str):
         c = self.contract
         if c.is_generator:
             res = SV("gen", p.ghost.get("yielded", L.Empty))
         self.exit_ghost(p, c.ghost_exit, res)
+        self.trace_ghost(p, res)
         x = Ctx(self, self.h_entry, p.heap, self.args_at_exit(p), res=res, family=self.family, labels=p.labels)
         x.p = p
         x0 = Ctx(self, self.h_entry, self.h_entry, self.args_entry, family=self.family)
@@ -315,6 +330,7 @@ class Executor(ExprMixin, ContainerMixin, CallMixin, StmtMixin, ObjectMixin):
     def at_raise(self, p: Path, exc: ExcV):
         c = self.contract
         self.exit_ghost(p, c.ghost_exit_exc, None, exc=exc)
+        self.trace_ghost(p, None, exc=exc)
         x = Ctx(self, self.h_entry, p.heap, self.args_at_exit(p), family=self.family, exc=exc, labels=p.labels)
         x.p = p
         x0 = Ctx(self, self.h_entry, self.h_entry, self.args_entry, family=self.family)
